@@ -46,6 +46,11 @@ def main(argv=None) -> int:
         print(f"no check for {prop}: {e}")
         return 2
     ctx = Ctx(prop, tier, seed)
+    changed = core.anchors_changed(prop)
+    if changed:
+        # never a verdict by itself: a changed source only buys a deeper search (DESIGN.md 4.3)
+        ctx.escalated = True
+        ctx.note("anchored sources differ from the validated baseline, search budget escalated: " + ", ".join(changed))
 
     if args.replay:
         payload = json.load(open(args.replay))
